@@ -9,6 +9,7 @@ import (
 	"go/token"
 	"go/types"
 	"golang.org/x/tools/go/ssa"
+	"sort"
 	"strings"
 
 	"golang.org/x/tools/go/cfg"
@@ -413,6 +414,51 @@ func ruleCacheFields(c *Ctx) {
 		return
 	}
 	readOnHit := map[int]bool{}
+	perFn := map[*ssa.Function]map[int]bool{} // fields read from a found entry, per function that reads one
+	perFnPos := map[*ssa.Function]token.Pos{}
+	defer func() {
+		// every consumer of a cache hit uses the whole entry: a function that reads some field of an entry found in
+		// the cache reads - itself, or in the functions it hands the entry to, or in the function that handed it the
+		// entry - every field (C11-m29: a second hit site in Load that takes cached.journal and drops
+		// cached.parseErrors - the file's syntax errors are reported by a fresh loader and not by this one)
+		var fns []*ssa.Function
+		for f := range perFn {
+			fns = append(fns, f)
+		}
+		sort.Slice(fns, func(i, j int) bool { return fns[i].Pos() < fns[j].Pos() })
+		for _, f := range fns {
+			got := map[int]bool{}
+			for k := range perFn[f] {
+				got[k] = true
+			}
+			// callees and callers of f that also read the entry share the work
+			for _, g := range fns {
+				if g == f {
+					continue
+				}
+				related := false
+				for _, site := range (cgView{c}).callersOf(g) {
+					if site.Parent() == f {
+						related = true
+					}
+				}
+				for _, site := range (cgView{c}).callersOf(f) {
+					if site.Parent() == g {
+						related = true
+					}
+				}
+				if related {
+					for k := range perFn[g] {
+						got[k] = true
+					}
+				}
+			}
+			for i := 0; i < entry.NumFields(); i++ {
+				c.check(got[i], "G-CACHEFIELDS", funcName(f), "a function that uses a cache hit uses cached "+entry.Field(i).Name(), perFnPos[f],
+					"the field is read where the found entry is used", "this function takes part of an entry found in the per-file cache and ignores field "+entry.Field(i).Name()+": on this hit path what the field holds (the file's syntax errors) is dropped, so a load served from the cache reports less than a fresh loader reading the same files")
+			}
+		}
+	}()
 	for _, f := range c.P.ModuleFuncs() {
 		if f.Pkg != ipk {
 			continue
@@ -447,6 +493,11 @@ func ruleCacheFields(c *Ctx) {
 				for _, lk := range lookups {
 					if sl[lk] {
 						readOnHit[idx] = true
+						if perFn[f] == nil {
+							perFn[f] = map[int]bool{}
+							perFnPos[f] = ins.Pos()
+						}
+						perFn[f][idx] = true
 					}
 				}
 			}
